@@ -8,6 +8,15 @@ the result (piece bytes / digest / bool / None / error kind) and the number of f
 the process that point into the content tree are compared with the model's answer, the
 specification's answer (= the answer of a fresh object = chunks / slice of the concatenated
 stream) and the size of the model's handle table.
+
+Independently of the model, the specification of C19 is checked on the implementation itself:
+after the history every operation is repeated on a FRESH TorrentFileStream object (same torrent
+state, same disk) and the answer of the used object must be the same.  That comparison also runs on
+damaged disks (per-file state ok | missing | size +-1, outside the hypothesis of `C19_independent`,
+whose model assumes intact content) and over histories that replace the torrent's stored piece
+hashes between operations (`setHashes`; in the model the stored hashes are an argument of the
+operation, theorem `C19_history_hashes`).  On damaged disks sequential iterations are additionally
+compared with `Handles.iterDamaged true` (= C10's `Missing.iterItems`).
 """
 import glob
 import hashlib
@@ -24,10 +33,14 @@ MATCHERS = {}
 RULE = ('case = (piece length, file sizes >= 1, handle cap, wrong stored hashes, history of '
         'operations on ONE TorrentFileStream object); operations: iterFull, iterAbandon k '
         '(k in 0..pieces+1), getPiece/getPieceHash/verifyPiece i (i in -1..pieces and beyond), '
-        'close, with-block exit; every history ends with an extra close.  Exhaustive: all histories '
+        'close, with-block exit, setHashes (flip digest i | digests for another piece length | '
+        'truncate | remove | restore); optional per-file disk state ok|missing|size-1|size+1; '
+        'every history ends with an extra close.  Exhaustive: all histories '
         'of length <= 2 over the full alphabet and length 3 over a reduced alphabet on fixed small '
         'layouts (3 files; 14 files > cap+1; cap 1); random: longer histories on random layouts of '
-        '1..5 and 12..16 files.  non-trivial = the history contains a reading operation that '
+        '1..5 and 12..16 files (a third of them on damaged disks); exhaustive pairs over a reduced '
+        'alphabet on two 3/5-file layouts under every single-file damage; all verifyPiece i; '
+        'setHashes x; verifyPiece j triples on one layout.  non-trivial = the history contains a reading operation that '
         'actually opens/reads files and follows another such operation on the same object with no '
         'close in between; distinct = distinct (L, sizes, cap, wrong, history)')
 
@@ -54,32 +67,45 @@ def _kind(e):
     return type(e).__name__
 
 
-def _do_op(tfs, op, top):
+def _exc_key(e, index_of):
+    """exception attached to an item -> [file index, kind] (as in the C10 check)"""
+    n = type(e).__name__
+    p = None
+    if n == 'ReadError':
+        p = getattr(e, 'path', None)
+    elif n == 'VerifyFileSizeError':
+        p = getattr(e, 'filepath', None)
+    return [index_of.get(str(p), -1) if p is not None else -1, n]
+
+
+def _item(p, exc, index_of):
+    return [p, sorted(_exc_key(x, index_of) for x in exc)]
+
+
+def _do_op(tfs, op, top, index_of):
     """perform one operation; returns (result, max number of content fds seen while it ran)"""
     name, a = op[0], (op[1] if len(op) > 1 else None)
     peak = 0
     try:
         if name == 'iterFull':
-            got, excs = [], []
+            got = []
             for (p, fp, exc) in tfs.iter_pieces():
-                got.append(p)
-                excs += [_kind(x) for x in exc]
+                got.append(_item(p, exc, index_of))
                 peak = max(peak, _nfd(top))
-            res = ('pieces', got, excs)
+            res = ('pieces', got)
         elif name == 'iterAbandon':
             it = tfs.iter_pieces()
-            got, excs = [], []
+            got = []
             try:
                 for _ in range(a):
                     (p, fp, exc) = next(it)
-                    got.append(p)
-                    excs += [_kind(x) for x in exc]
+                    got.append(_item(p, exc, index_of))
                     peak = max(peak, _nfd(top))
             except StopIteration:
                 pass
             it.close()
             del it
-            res = ('pieces', got, excs)
+            res = ('pieces', got)
         elif name == 'getPiece':
             res = ('piece', tfs.get_piece(a))
         elif name == 'getPieceHash':
@@ -99,13 +125,90 @@ def _do_op(tfs, op, top):
     return res, peak
 
 
-def stored_pieces(contents, L, wrong):
-    stream = b''.join(contents)
-    hs = [hashlib.sha1(stream[i:i + L]).digest() for i in range(0, len(stream), L)]
-    for w in wrong:
-        if 0 <= w < len(hs):
-            hs[w] = bytes(b ^ 0xFF for b in hs[w])
-    return b''.join(hs)
+# ---- the torrent's stored piece hashes, symbolically: [flag, a, b] = sha1(stream[a:b]), bitwise
+# ---- complemented when flag = 1; None = no 'pieces' key at all
+
+def sym_orig(L, T, wrong=()):
+    return [[1 if i in wrong else 0, i * L, min((i + 1) * L, T)] for i in range((T + L - 1) // L)]
+
+
+def sym_apply(sym, op, L, T, wrong):
+    """state of the stored hashes after the history step ['setHashes', kind, arg?]"""
+    kind = op[1]
+    a = op[2] if len(op) > 2 else None
+    if kind == 'orig':
+        return sym_orig(L, T, wrong)
+    if kind == 'relen':
+        return sym_orig(max(1, a), T)
+    if kind == 'remove' or sym is None:
+        return None
+    cur = [list(x) for x in sym]
+    if kind == 'flip':
+        if 0 <= a < len(cur):
+            cur[a][0] ^= 1
+        return cur
+    if kind == 'trunc':
+        return cur[:max(0, a)]
+    raise RuntimeError(f'unknown setHashes kind {kind}')
+
+
+def sym_states(c):
+    """stored-hash state in force at each step of the history (after a setHashes step: the new one)"""
+    T = sum(c['sizes'])
+    sym = sym_orig(c['L'], T, c['wrong'])
+    out = []
+    for op in c['ops']:
+        if op[0] == 'setHashes':
+            sym = sym_apply(sym, op, c['L'], T, c['wrong'])
+        out.append(sym)
+    return out
+
+
+def sym_bytes(sym, stream):
+    if sym is None:
+        return None
+    out = []
+    for f, a, b in sym:
+        d = hashlib.sha1(stream[a:b]).digest()
+        out.append(bytes(x ^ 0xFF for x in d) if f else d)
+    return b''.join(out)
+
+
+def _store(t, sym, stream):
+    b = sym_bytes(sym, stream)
+    if b is None:
+        t.metainfo['info'].pop('pieces', None)
+    else:
+        t.metainfo['info']['pieces'] = b
+    return b
+
+
+def disk_of(c):
+    return list(c.get('disk') or ['ok'] * len(c['sizes']))
+
+
+def damaged(c):
+    return any(d != 'ok' for d in disk_of(c))
+
+
+def _make_tree(wd, name, files, c):
+    """content tree in the disk state of the case; returns the GOOD contents (what the torrent records)"""
+    single = c.get('single', False)
+    contents = content.make_tree(wd, name, files, seed=c['cseed'], single=single)
+    top = os.path.join(wd, name)
+    for i, (f, st) in enumerate(zip(files, disk_of(c))):
+        if st == 'ok':
+            continue
+        assert not single
+        p = os.path.join(top, *f['path'])
+        if st == 'missing':
+            os.unlink(p)
+        else:
+            n = int(st)
+            data = (contents[i] + content.file_bytes(c['cseed'] + 1, i, max(0, n - len(contents[i]))))[:n]
+            with open(p, 'wb') as fh:
+                fh.write(data)
+    return contents
 
 
 def _run_chunk(cases):
@@ -114,30 +217,64 @@ def _run_chunk(cases):
     wd = common.worker_dir()
     out = []
     last_key, contents = None, None
+    fresh_cache = {}
     name = 'T'
     top = os.path.join(wd, name)
     for c in cases:
         L, sizes = c['L'], c['sizes']
         single = c.get('single', False)
         files = [{'path': p, 'size': s} for p, s in zip(c['paths'], sizes)]
-        key = (L, tuple(sizes), json.dumps(c['paths']), c['cseed'], single)
+        key = (L, tuple(sizes), json.dumps(c['paths']), c['cseed'], single, tuple(map(str, disk_of(c))))
         obs = {'rows': []}
         try:
             if key != last_key:
-                contents = content.make_tree(wd, name, files, seed=c['cseed'], single=single)
+                last_key = None
+                contents = _make_tree(wd, name, files, c)
                 last_key = key
+                fresh_cache = {}
+            index_of = ({top: 0} if single else
+                        {os.path.join(top, *f['path']): i for i, f in enumerate(files)})
+            stream = b''.join(contents)
+            T = len(stream)
             t = content.make_torrent(torf, wd, name, files, L, single=single)
-            t.metainfo['info']['pieces'] = stored_pieces(contents, L, c['wrong'])
+            sym = sym_orig(L, T, c['wrong'])
+            _store(t, sym, stream)
             base = _nfd(top)
             tfs = _stream.TorrentFileStream(t)
             if c['cap'] != 10:
                 tfs.max_open_files = c['cap']
             obs['cap_seen'] = tfs.max_open_files
             for op in c['ops']:
-                res, peak = _do_op(tfs, op, top)
+                if op[0] == 'setHashes':
+                    sym = sym_apply(sym, op, L, T, c['wrong'])
+                    _store(t, sym, stream)
+                    res, peak = ('none', None), base
+                else:
+                    res, peak = _do_op(tfs, op, top, index_of)
                 obs['rows'].append({'res': res, 'nfd': _nfd(top) - base, 'peak': peak - base})
             tfs.close()
             del tfs
+            # the specification of C19 on the implementation itself: every operation once more, on a
+            # FRESH object, with the stored hashes that were in force at that step
+            sym = sym_orig(L, T, c['wrong'])
+            cur = _store(t, sym, stream)
+            for row, op in zip(obs['rows'], c['ops']):
+                if op[0] == 'setHashes':
+                    sym = sym_apply(sym, op, L, T, c['wrong'])
+                    cur = _store(t, sym, stream)
+                    continue
+                if op[0] in ('close', 'ctxExit'):
+                    continue
+                ck = (c['cap'], json.dumps(op), cur)
+                if ck not in fresh_cache:
+                    f = _stream.TorrentFileStream(t)
+                    if c['cap'] != 10:
+                        f.max_open_files = c['cap']
+                    fresh_cache[ck] = _do_op(f, op, top, index_of)[0]
+                    f.close()
+                    del f
+                ref = fresh_cache[ck]
+                row['fresh'] = None if ref == row['res'] else ref     # None: same as the used object
         except BaseException as e:  # noqa
             obs['exc'] = f'{type(e).__name__}: {e}'
         out.append((c, obs, contents))
@@ -174,7 +311,23 @@ def reduced_alphabet(np_):
     return out
 
 
-def random_op(rng, np_):
+def random_set_hashes(rng, np_, L):
+    r = rng.random()
+    if r < 0.35:
+        return ['setHashes', 'flip', rng.randint(0, max(0, np_ - 1))]
+    if r < 0.6:
+        return ['setHashes', 'relen', rng.choice([max(1, L - 1), L + 1, 2 * L, 1, L])]
+    if r < 0.75:
+        return ['setHashes', 'trunc', rng.randint(0, np_)]
+    if r < 0.85:
+        return ['setHashes', 'remove']
+    return ['setHashes', 'orig']
+
+
+def random_op(rng, np_, L=None):
+    r = rng.random()
+    if L is not None and r < 0.09:
+        return random_set_hashes(rng, np_, L)
     r = rng.random()
     if r < 0.18:
         return ['iterFull']
@@ -189,6 +342,20 @@ def random_op(rng, np_):
     if r < 0.94:
         return ['close']
     return ['ctxExit']
+
+
+def bad_states(size):
+    """disk states of a damaged file (as in the C10 check): missing, one byte longer, one byte shorter"""
+    return ['missing', size + 1] + ([size - 1] if size > 0 else [])
+
+
+def random_disk(rng, sizes):
+    n = len(sizes)
+    bad = set(rng.sample(range(n), min(n, rng.choice([1, 1, 1, 2, 2, 3]))))
+    if n > 2 and rng.random() < 0.3:      # neighbours: by-catch files that are bad themselves
+        j = rng.randrange(n - 1)
+        bad |= {j, j + 1}
+    return [rng.choice(bad_states(s)) if i in bad else 'ok' for i, s in enumerate(sizes)]
 
 
 def random_layout(rng):
@@ -207,9 +374,10 @@ def random_layout(rng):
     return shape, L, sizes
 
 
-def _mk(rng, L, sizes, ops, cap=10, wrong=(), nested=False, single=False, shape='fixed', lay=None):
+def _mk(rng, L, sizes, ops, cap=10, wrong=(), nested=False, single=False, shape='fixed', lay=None, disk=None):
     lay = lay or {}
-    return {'L': L, 'sizes': list(sizes), 'cap': cap, 'wrong': sorted(wrong),
+    extra = {'disk': list(disk)} if disk and any(d != 'ok' for d in disk) else {}
+    return {**extra,'L': L, 'sizes': list(sizes), 'cap': cap, 'wrong': sorted(wrong),
             'ops': [list(o) for o in ops] + [['close']],
             'paths': lay.get('paths') or layouts.paths_for(len(sizes), rng, nested),
             'cseed': lay.get('cseed', 0) or rng.randrange(1, 1 << 30),
@@ -231,6 +399,78 @@ FIXED_THOROUGH = FIXED_QUICK + [
     (8, [3, 9, 1, 1, 1, 2, 1, 1, 1, 1, 4, 1, 1, 1, 8], 10, ()),
     (2, [5], 10, ()),
 ]
+
+
+# damaged disks: (L, sizes).  Second layout: file 1 (bytes 5..9) ends inside piece 2 = bytes 8..11, which also
+# holds the whole of file 2 (a by-catch file when file 1 is bad) and the first byte of file 3 (skip_bytes = 1)
+FIXED_DAMAGED = [
+    (3, [2, 4, 2]),
+    (4, [5, 5, 1, 8, 3]),
+]
+
+
+def damaged_alphabet(np_):
+    mid = max(1, np_ // 2)
+    A = [['iterFull'], ['iterAbandon', 1], ['iterAbandon', mid + 1], ['iterAbandon', np_], ['getPiece', 0],
+         ['getPiece', mid], ['getPiece', np_ - 1], ['getPieceHash', mid], ['verifyPiece', mid], ['close']]
+    seen, out = set(), []
+    for a in A:
+        k = json.dumps(a)
+        if k not in seen:
+            seen.add(k)
+            out.append(a)
+    return out
+
+
+def gen_damaged_fixed(ctx, rng):
+    cases = []
+    for (L, sizes) in FIXED_DAMAGED:
+        np_ = npieces(L, sizes)
+        lay = {'paths': layouts.paths_for(len(sizes), rng, nested=False), 'cseed': rng.randrange(1, 1 << 30)}
+        disks = []
+        for j, sz in enumerate(sizes):
+            for st in bad_states(sz):
+                disks.append(['ok'] * j + [st] + ['ok'] * (len(sizes) - j - 1))
+        # two bad files: a bad file whose by-catch / next file is bad as well; first and last file bad
+        if len(sizes) >= 3:
+            disks.append(['ok', 'missing', sizes[2] + 1] + ['ok'] * (len(sizes) - 3))
+            disks.append(['missing'] + ['ok'] * (len(sizes) - 2) + [sizes[-1] + 1])
+        if len(sizes) >= 4:
+            disks.append(['ok', sizes[1] - 1, 'ok', 'missing'] + ['ok'] * (len(sizes) - 4))
+        A = damaged_alphabet(np_)
+        hs = [[a] for a in A] + [[a, b] for a in A for b in A]
+        if ctx.thorough:
+            hs += [[a, b, d] for a in A for b in A for d in A]
+        for disk in disks:
+            for h in hs:
+                cases.append(_mk(rng, L, sizes, h, shape=f'exhaustive-damaged-{len(sizes)}files', lay=lay, disk=disk))
+    return cases
+
+
+def gen_hash_histories(ctx, rng):
+    """verifyPiece i; setHashes x; verifyPiece j  (and: x; verifyPiece i; y; verifyPiece j) on one object"""
+    cases = []
+    L, sizes = 3, [2, 4, 2]
+    np_ = npieces(L, sizes)
+    lay = {'paths': layouts.paths_for(len(sizes), rng, nested=False), 'cseed': rng.randrange(1, 1 << 30)}
+    idx = list(range(-1, np_ + 1))
+    sets = ([['setHashes', 'flip', k] for k in range(np_)] +
+            [['setHashes', 'relen', l2] for l2 in (2, 4, 8)] +
+            [['setHashes', 'trunc', 1], ['setHashes', 'trunc', 2], ['setHashes', 'remove']])
+    for wrong in ((), (1,)):
+        for x in sets:
+            for i in idx:
+                for j in idx:
+                    cases.append(_mk(rng, L, sizes, [['verifyPiece', i], x, ['verifyPiece', j]], wrong=wrong,
+                                     shape='exhaustive-setHashes', lay=lay))
+    for x in (['setHashes', 'remove'], ['setHashes', 'trunc', 1], ['setHashes', 'flip', 1]):
+        for y in (['setHashes', 'orig'], ['setHashes', 'relen', 4], ['setHashes', 'flip', 1]):
+            for i in idx:
+                for j in idx:
+                    cases.append(_mk(rng, L, sizes, [x, ['verifyPiece', i], y, ['verifyPiece', j], ['iterFull'],
+                                                     ['verifyPiece', j]],
+                                     shape='exhaustive-setHashes', lay=lay))
+    return cases
 
 
 def gen_cases(ctx, scale=1.0):
@@ -256,6 +496,9 @@ def gen_cases(ctx, scale=1.0):
         for h in hs:
             cases.append(_mk(rng, L, sizes, h, cap=cap, wrong=wrong, single=single,
                              shape=f'exhaustive-{len(sizes)}files-cap{cap}', lay=lay))
+    # 1b. damaged disks and replaced stored hashes (exhaustive short histories)
+    cases += gen_hash_histories(ctx, rng)
+    cases += gen_damaged_fixed(ctx, rng)
     # 2. random longer histories on random layouts (a layout is shared by a batch of histories)
     n_rand = int(ctx.n(3000, 120000) * scale)
     per_layout = 8
@@ -269,11 +512,12 @@ def gen_cases(ctx, scale=1.0):
         lay = {'paths': layouts.paths_for(len(sizes), rng, nested=not single),
                'cseed': rng.randrange(1, 1 << 30)}
         cap = 10 if rng.random() < 0.7 else rng.choice([0, 1, 2, 3, 12])
+        disk = random_disk(rng, sizes) if (not single and rng.random() < 0.34) else None
         for _ in range(per_layout):
             wrong = [rng.randrange(np_)] if rng.random() < 0.3 else []
-            ops = [random_op(rng, np_) for _ in range(rng.randint(2, maxlen))]
+            ops = [random_op(rng, np_, L) for _ in range(rng.randint(2, maxlen))]
             cases.append(_mk(rng, L, sizes, ops, cap=cap, wrong=wrong, single=single,
-                             shape='random-' + shape, lay=lay))
+                             shape=('random-damaged-' if disk else 'random-') + shape, lay=lay, disk=disk))
     return cases
 
 
@@ -284,7 +528,7 @@ def _canon_model(out, contents):
     """model/spec answer (runs) -> the value the real call must return"""
     k = out['k']
     if k == 'pieces':
-        return ('pieces', content.pieces_from_runs(out['v'], contents), [])
+        return ('pieces', [[p, []] for p in content.pieces_from_runs(out['v'], contents)])
     if k == 'piece':
         return ('piece', content.pieces_from_runs([out['v']], contents)[0])
     if k == 'digest':
@@ -303,26 +547,42 @@ def _canon_model(out, contents):
 def _canon_impl(res):
     res = tuple(res)
     if res[0] == 'pieces':
-        return ('pieces', list(res[1]), list(res[2]))
+        return ('pieces', [[p, [list(e) for e in es]] for p, es in res[1]])
     return (res[0], res[1])
+
+
+_KIND = {'read': 'ReadError', 'size': 'VerifyFileSizeError'}
+
+
+def _canon_damaged_items(items, contents, k=None):
+    """items of `Handles.iterDamaged true` (= Missing.iterItems) -> what iter_pieces() must yield"""
+    out = []
+    for it in items if k is None else items[:k]:
+        d = None if it['data'] is None else content.pieces_from_runs([it['data']], contents)[0]
+        out.append([d, sorted([f, _KIND[e]] for f, e in it['excs'])])
+    return ('pieces', out)
 
 
 def _short(v):
     if v[0] == 'pieces':
-        return ['pieces', [(p.hex() if isinstance(p, (bytes, bytearray)) else p) for p in v[1][:8]], v[2][:3]]
+        return ['pieces', [[(p.hex() if isinstance(p, (bytes, bytearray)) else p), es] if es else
+                           (p.hex() if isinstance(p, (bytes, bytearray)) else p) for p, es in v[1][:10]]]
     if isinstance(v[1], (bytes, bytearray)):
         return [v[0], v[1].hex()]
     return list(v)
 
 
-def effective_reads(c, rows):
-    """non-trivial rule: a reading op that opened/read files follows another one, no close between"""
+def effective_reads(c, results):
+    """non-trivial rule: a reading op that opened/read files follows another one, no close between.
+    `results` = per step the canonical answer (of the model on intact content, of the implementation on
+    damaged disks)"""
     seen = False
-    for op, r in zip(c['ops'], rows):
+    for op, r in zip(c['ops'], results):
         if op[0] in ('close', 'ctxExit'):
             seen = False
         elif op[0] in READ_OPS:
-            reads = r['m']['k'] != 'err' and not (op[0] == 'iterAbandon' and op[1] == 0)
+            reads = not (r[0] == 'err' and r[1] in ('ValueError', 'AssertionError', 'closed-handle', 'fuel')) \
+                and not (op[0] == 'iterAbandon' and op[1] == 0)
             if reads and seen:
                 return True
             seen = seen or reads
@@ -330,49 +590,120 @@ def effective_reads(c, rows):
 
 
 def case_view(c):
-    return {k: c[k] for k in ('L', 'sizes', 'cap', 'wrong', 'ops', 'paths', 'cseed', 'single')}
+    v = {k: c[k] for k in ('L', 'sizes', 'cap', 'wrong', 'ops', 'paths', 'cseed', 'single')}
+    if damaged(c):
+        v['disk'] = disk_of(c)
+    return v
+
+
+def _drv_ops(c, syms):
+    out = []
+    for o, sym in zip(c['ops'], syms):
+        if o[0] == 'setHashes':
+            out.append({'op': 'setHashes', 'stored': sym or []})
+        elif len(o) > 1:
+            out.append({'op': o[0], 'a': o[1]})
+        else:
+            out.append({'op': o[0]})
+    return out
+
+
+def _digest_collision(c, sym, i, contents):
+    """the model identifies a digest with the byte range it was computed from; the real digests of two
+    different ranges coincide when the bytes happen to be equal (1- and 2-byte pieces).  True iff that
+    happens for the stored hash that verify_piece(i) looks at."""
+    if sym is None or not (0 <= i < len(sym)):
+        return False
+    L, T = c['L'], sum(c['sizes'])
+    f, a, b = sym[i]
+    lo, hi = i * L, min((i + 1) * L, T)
+    if f or lo >= T or (a, b) == (lo, hi):
+        return False
+    stream = b''.join(contents)
+    return stream[a:b] == stream[lo:hi]
 
 
 def evaluate(ctx, drv, cases):
-    reqs = [{'op': 'c19.history', 'L': c['L'], 'sizes': c['sizes'], 'cap': c['cap'],
-             'wrong': c['wrong'],
-             'ops': [({'op': o[0], 'a': o[1]} if len(o) > 1 else {'op': o[0]}) for o in c['ops']]}
-            for c in cases]
+    syms = [sym_states(c) for c in cases]
+    reqs, where_req, dreqs = [], {}, {}
+    for n, c in enumerate(cases):
+        if damaged(c):
+            dk = (c['L'], tuple(c['sizes']), tuple(map(str, disk_of(c))))
+            if dk not in dreqs:
+                dreqs[dk] = len(reqs)
+                reqs.append({'op': 'c19.damagedIter', 'L': c['L'], 'sizes': c['sizes'], 'disk': disk_of(c)})
+            where_req[n] = dreqs[dk]
+        else:
+            where_req[n] = len(reqs)
+            reqs.append({'op': 'c19.history', 'L': c['L'], 'sizes': c['sizes'], 'cap': c['cap'],
+                         'wrong': c['wrong'], 'ops': _drv_ops(c, syms[n])})
     replies = drv.run(reqs)
     results = common.pmap(_run_chunk, common.split(cases, common.NPROC * 4))
-    k = 0
+    k = -1
     for chunk in results:
         for (c, obs, contents) in chunk:
-            r = replies[k]
             k += 1
-            hyp = r['hyp']
-            key = (c['L'], tuple(c['sizes']), c['cap'], tuple(c['wrong']), json.dumps(c['ops']))
-            ctx.case(key=key, nontrivial=effective_reads(c, r['rows']), kind=c['shape'])
+            r = replies[where_req[k]]
+            dmg = damaged(c)
+            key = (c['L'], tuple(c['sizes']), c['cap'], tuple(c['wrong']), json.dumps(c['ops']),
+                   tuple(map(str, disk_of(c))) if dmg else ())
+            case = case_view(c)
+            if 'exc' in obs:
+                ctx.case(key=key, nontrivial=False, kind=c['shape'])
+                ctx.violation(f'history raised outside the operations: {obs["exc"]}', case, 'results', obs['exc'])
+                continue
+            impl = [_canon_impl(o['res']) for o in obs['rows']]
+            if dmg:
+                hyp = False
+                nontriv = effective_reads(c, impl)
+            else:
+                hyp = r['hyp']
+                nontriv = effective_reads(c, [(row['m']['k'], row['m'].get('v')) for row in r['rows']])
+            ctx.case(key=key, nontrivial=nontriv, kind=c['shape'])
             if len(c['sizes']) > c['cap'] + 1:
                 ctx.dist['more-files-than-cap+1'] += 1
             if c['wrong']:
                 ctx.dist['with-wrong-stored-hash'] += 1
-            case = case_view(c)
-            if 'exc' in obs:
-                ctx.violation(f'history raised outside the operations: {obs["exc"]}', case, 'results', obs['exc'])
-                continue
+            if dmg:
+                ctx.dist['damaged-disk'] += 1
+            if any(o[0] == 'setHashes' for o in c['ops']):
+                ctx.dist['with-setHashes'] += 1
             if obs.get('cap_seen') != c['cap']:
                 ctx.violation('max_open_files is not the documented default 10', case, c['cap'], obs.get('cap_seen'))
                 continue
-            ctx.sample({'case': case, 'model_rows': r['rows'][:3]})
-            for n, (op, row, o) in enumerate(zip(c['ops'], r['rows'], obs['rows'])):
-                m = _canon_model(row['m'], contents)
-                s = m if row['s'] is None else _canon_model(row['s'], contents)
-                i = _canon_impl(o['res'])
+            if not dmg:
+                ctx.sample({'case': case, 'model_rows': r['rows'][:3]})
+            elif ctx.dist['damaged-disk'] % 500 == 1:
+                ctx.sample({'case': case, 'impl_rows': [_short(x) for x in impl[:3]]})
+            for n, (op, o, i) in enumerate(zip(c['ops'], obs['rows'], impl)):
                 where = {'step': n, 'op': op}
-                if hyp and (row['s'] is not None or row['m']['k'] == 'err' and row['m']['v'] in ('closed-handle', 'fuel', 'AssertionError')):
-                    ctx.machinery_error(f'model answer differs from the specification at step {n} although '
-                                        'C19_independent / C19_spec are proved', case)
-                    break
-                if i != s:
-                    ctx.violation(f'step {n} {op}: the answer depends on the history (differs from the answer of a '
-                                  'fresh object = slice of the concatenated stream)',
-                                  case, {**where, 'expected': _short(s)}, {**where, 'observed': _short(i)},
+                if op[0] == 'setHashes':
+                    continue
+                # (1) intact content: implementation and model against the specification of the model
+                if not dmg:
+                    row = r['rows'][n]
+                    m = _canon_model(row['m'], contents)
+                    s = m if row['s'] is None else _canon_model(row['s'], contents)
+                    if hyp and (row['s'] is not None or row['m']['k'] == 'err' and row['m']['v'] in ('closed-handle', 'fuel', 'AssertionError')):
+                        ctx.machinery_error(f'model answer differs from the specification at step {n} although '
+                                            'C19_independent / C19_spec are proved', case)
+                        break
+                    if op[0] == 'verifyPiece' and s[0] == 'bool' and not s[1] \
+                            and _digest_collision(c, syms[k][n], op[1], contents):
+                        ctx.dist['digest-collision(model comparison skipped)'] += 1
+                        s = ('bool', True)
+                    if i != s:
+                        ctx.violation(f'step {n} {op}: the answer depends on the history (differs from the answer of a '
+                                      'fresh object = slice of the concatenated stream)',
+                                      case, {**where, 'expected': _short(s)}, {**where, 'observed': _short(i)},
+                                      finding_matchers=MATCHERS)
+                        break
+                # (2) any disk: the used object against a fresh object (the property itself)
+                if o.get('fresh') is not None:
+                    fr = _canon_impl(o['fresh'])
+                    ctx.violation(f'step {n} {op}: the answer depends on the history (a fresh object on the same torrent '
+                                  'and disk answers differently)' + (' [damaged disk]' if dmg else ''),
+                                  case, {**where, 'fresh_object': _short(fr)}, {**where, 'observed': _short(i)},
                                   finding_matchers=MATCHERS)
                     break
                 bound = c['cap'] + 1
@@ -387,16 +718,30 @@ def evaluate(ctx, drv, cases):
                                   case, {**where, 'open_after': 0}, {**where, 'open_after': o['nfd']},
                                   finding_matchers=MATCHERS)
                     break
-                if hyp and o['nfd'] != row['nopen']:
-                    ctx.corr_break('c19.history:nopen', case, {**where, 'nopen': row['nopen']},
+                if hyp and o['nfd'] != r['rows'][n]['nopen']:
+                    ctx.corr_break('c19.history:nopen', case, {**where, 'nopen': r['rows'][n]['nopen']},
                                    {**where, 'nopen': o['nfd']})
                     break
+                # (3) damaged disk: sequential iterations against the model of that branch
+                if dmg and op[0] in ('iterFull', 'iterAbandon') and r['items'] is not None:
+                    m = _canon_damaged_items(r['items'], contents, op[1] if op[0] == 'iterAbandon' else None)
+                    if i != m:
+                        ctx.corr_break('c19.damagedIter', case, {**where, 'model': _short(m)},
+                                       {**where, 'impl': _short(i)})
+                        break
 
 
 def run(ctx, drv):
     ctx.notes['rule'] = RULE
     ctx.notes['assumptions'] = [
-        'every file of the torrent is present with the recorded size (missing/mis-sized files: C10)',
+        'theorems C19_independent / C19_history / C19_iter_spec: every file of the torrent is present with the recorded '
+        'size.  Histories on damaged disks (files missing or one byte too long/short) are OUTSIDE that hypothesis: there '
+        'the used object is compared with a fresh object on the same torrent and disk (the property itself, checked on '
+        'the implementation) and sequential iterations with Handles.iterDamaged (= C10 Missing.iterItems; '
+        'C19_damaged_iter_independent)',
+        'setHashes steps replace info[\'pieces\'] between operations; the stored hashes are an argument of the model '
+        'operation (C19_history_hashes); a digest is identified with the byte range it was computed from, accidental '
+        'equality of the bytes of two different ranges is detected and the model comparison skipped for that step',
         'no zero-length files and piece length >= 1: get_piece geometry with empty files is C11 (D11a); '
         'the model takes the geometry as a parameter, the driver instantiates it by plain arithmetic',
         'SHA-1 is a parameter H of the model; the harness applies real hashlib.sha1 to the model pieces; '
